@@ -92,13 +92,39 @@ def r_varmap(rule, root=None):
 from .. import factrules as FR
 
 
+VAR = "fidget-core/src/var/mod.rs"
+
+
+def r_var_identity(rule, root=None):
+    """a variable made by Var::new is bound by its index, so two live variables must never share one: the
+    index comes from a process-wide source (the random 64-bit draw, or one global atomic counter) - not from
+    anything per thread, per context or per call site"""
+    fn = A.find_fn(VAR, "new", self_ty="Var", root=root)
+    body = fn["body"]
+    macs = [m["name"] for m in A.find(body, "Macro")]
+    calls = [(A.path_segs(c["func"]) or []) for c in A.find(body, "Call")]
+    rnd = any(segs[-2:] == ["rand", "random"] or segs == ["random"] for segs in calls)
+    atomic = any(c["method"] == "fetch_add" for c in A.find(body, "MethodCall"))
+    tail = A.unblock(body["stmts"][-1]["e"]) if body["stmts"] and body["stmts"][-1].get("k") == "ExprStmt" else {}
+    wraps = str(A.ftxt(tail)).startswith("Var::V(VarIndex(") or str(A.ftxt(tail)).startswith("Self::V(VarIndex(")
+    if "thread_local" in macs:
+        rule.bad("var|new|thread-local", "Var::new numbers variables from a per-thread counter: variables created on different threads get the same index, collapse into one input when combined, and overwrite each other's value in ShapeVars", A.where(fn))
+    elif (rnd or atomic) and wraps:
+        rule.ok("Var::new takes its index from a process-wide source (%s)" % ("rand::random" if rnd else "a global atomic counter"), file=VAR, line=fn["ln"])
+    else:
+        rule.bad("var|new|source", "Var::new must wrap an index drawn from a process-wide source (rand::random::<u64>() or one global atomic counter) in Var::V(VarIndex(..))", A.where(fn))
+
+
 def run(ctx):
     r = ctx.rule("R1", "X/Y/Z and free variables are bound by identity; the transform is applied in axis order", 16)
     ctx.guarded(r, SC.r_axis_binding)
     r = ctx.rule("R2", "VarMap assigns an index once, by identity, and only in insert", 12)
     ctx.guarded(r, r_varmap)
-    r = ctx.rule("R3", "missing variables and too-short argument lists are errors; extras are allowed", 4)
+    r = ctx.rule("R2b", "fresh variables get process-wide unique indices", 1)
+    ctx.guarded(r, r_var_identity)
+    r = ctx.rule("R3", "missing variables and too-short argument lists are errors; extras are allowed", 6)
     ctx.guarded(r, SC.r_arg_checks)
+    ctx.guarded(r, SC.r_no_early_ok)
     from .C19 import r1_free_fixed
 
     r = ctx.rule("R5", "the solver binds every parameter at its tape's own index, fixed ones at their value in every lane", 7)
